@@ -2,9 +2,9 @@
    In the model an application strategy may answer any event with AAbandon (break / exception in the handler /
    generator.close(), optionally inside `with ws:`); CPython's generator finalisation is MODELLED: GeneratorExit at the
    suspended yield, the enclosing finally blocks, finalisation of a live WebSocket.feed generator. *)
-From Coq Require Import List NArith.
+From Coq Require Import List NArith ZArith.
 From Model Require Import Conn.
-From Proofs Require Import RunFacts.
+From Proofs Require Import RunFacts ReleaseFacts.
 Import ListNotations.
 
 (* for every configuration, every application strategy (abandoning wherever and however it likes), every connect
@@ -27,3 +27,28 @@ Print Assumptions C13_selector_closed.
 Theorem C13_finally : forall app c st, released (finish app c st).
 Proof. exact finish_released. Qed.
 Print Assumptions C13_finally.
+
+(* ... and the release is final.  In the trace of every run -- any configuration, any application strategy (abandoning
+   wherever and however it likes, inside `with ws:` or not), any masking keys, write faults and zlib results, any connect
+   outcome, any environment script -- nothing that uses the socket (a frame write, successful or failing; the upgrade
+   request; socket.close() itself) happens after socket.close(): the traces are most recent first, so in
+   a ++ x :: b the items of b precede x *)
+Theorem C13_no_use_after_release : forall cf app keys wf zt ct cn steps a x b,
+  k_tr (run cf app (init keys wf zt ct) cn steps) = a ++ x :: b ->
+  Proofs.ReleaseFacts.is_sock_use x = true -> Proofs.ReleaseFacts.nsc b = 0%nat.
+Proof. exact Proofs.ReleaseFacts.no_use_after_release. Qed.
+Print Assumptions C13_no_use_after_release.
+
+Theorem C13_socket_closed_at_most_once : forall cf app keys wf zt ct cn steps,
+  (Proofs.ReleaseFacts.nsc (k_tr (run cf app (init keys wf zt ct) cn steps)) <= 1)%nat.
+Proof. exact Proofs.ReleaseFacts.socket_closed_at_most_once. Qed.
+Print Assumptions C13_socket_closed_at_most_once.
+
+(* the statement is about something: an application that abandons the loop at Connected, inside `with ws:` -- two paths
+   (the GeneratorExit handler and __exit__) want to close the socket; it is closed once *)
+Example C13_release_nonvacuous :
+  let app := fun tr => match tr with TEv EvConnected :: _ => [AAbandon true] | _ => [] end in
+  let cf := {| c_poll := 5%Z; c_ping_rate := 30%Z; c_ping_timeout := None; c_auto_pong := true; c_close_timeout := Some 30%Z;
+               c_accept := [] |} in
+  k_tr (run cf app (init [] [] [] []) CnOk []) = [TSockClose; TEv EvConnected; TWriteReq true; TEv EvConnecting].
+Proof. vm_compute. reflexivity. Qed.
